@@ -55,7 +55,7 @@ _mk("C02",
     extra_tb=[TB_FLOAT], exhaustive=True)
 
 _mk("C04",
-    ["Platypus.Model.Eval"],
+    ["Platypus.Properties.C04Slice", "Platypus.Properties.C04"],
     rule="exhaustive slice grid: every list and string (ASCII and multi-byte) of length 0..3 (quick) / 0..5 (thorough) x (start,end,step) each omitted, "
          "in -4..4 (quick) / -8..8 (thorough) or in {+-2^31, max int64, min int64}; every index read/write path of depth <= 2 (all) and 3 (sampled quick / all thorough) "
          "over nested list/map shapes with in-range, negative, out-of-range and wrongly typed keys; len/in over collection classes; "
@@ -65,3 +65,25 @@ _mk("C04",
                "lies in [0,len) and has the capacity passed to make; index writes are visible through every alias and leave other objects unchanged. The model is tied to runtime.go by the exhaustive grid.",
     level_note="JSON text of lists/maps copied into the point is produced by encoding/json (oracle: the harness marshals the model's view of the value).",
     extra_tb=[TB_FLOAT, "encoding/json text of a list/map value (oracle answered by the harness from the model's own rendering of the value)"], exhaustive=True)
+
+_mk("C10",
+    ["Platypus.Properties.C10"],
+    rule="sequences of point operations issued through the builtins (add_key with every value kind, add_key(k), set_tag 3 forms, drop_key, rename, cast x5, "
+         "set_measurement(k,true)) over keys {initial field f1, initial tag t1, message, fresh k1, k2 (also a variable)}: all sequences of length 1 and 2 (exhaustive), "
+         "sampled length 3, random length 4..40; after every operation all five keys are read back through get_key; the final point (tags, fields with Go types, key index) "
+         "is compared with the model and checked against the invariant; strict",
+    technique="Lean 4 invariant proof (Inv holds initially, preserved by set/setTag/delete/rename, hence for every operation sequence; read-back exact; drop/rename again) + exhaustive short and random long builtin sequences compared with the model",
+    level_text="Kernel-checked: the key-index invariant (every tag/field key indexed with the right kind and type, never both, field values scalar) holds after any sequence of point operations, "
+               "reads return exactly the stored value and never a value the point does not hold, and a present key can be dropped or renamed. The model of point.go/utils.go is tied by exhaustive length-2 sequences.",
+    level_note="Initial points are assumed well formed (disjoint tag/field keys, supported field types) as the property's initial state; Conv2String text of floats/lists/maps is an oracle.",
+    extra_tb=[TB_FLOAT, "strconv float text / encoding/json text (oracles answered by the harness)"], exhaustive=True)
+
+_mk("C11",
+    ["Platypus.Model.Eval"],
+    rule="matrix: 20 subjects (absent; variable of every type; field of every type incl. 2^53+1, max int64, numeric/JSON/bad-JSON/bad-URL strings; tag; variable shadowing a field) "
+         "x ~100 call shapes of add_key/get_key/set_tag/drop_key/rename/cast/set_measurement/len/load_json/strfmt/printf/trim/uppercase/replace/url_decode "
+         "(identifier, string literal, attribute expression, `_`, nested expressions, optional arguments, failing arguments); engines answered by the harness; strict",
+    technique="Lean 4 model of the builtins' plumbing with engines as oracles + builtin x shape x subject matrix correspondence (theorems: see C10 for the point, C11 frame theorems pending)",
+    level_text="The model of each builtin (subject lookup, stringification, engine call, destination write, return register) is compared with the implementation over the full builtin x argument-shape x subject matrix.",
+    level_note="Engines (strconv, encoding/json, fmt.Sprintf, regexp, net/url, strings, spf13/cast string parsing) are oracles answered by calling the library directly.",
+    extra_tb=[TB_FLOAT, "strconv/encoding/json/fmt/regexp/net/url/strings/spf13-cast (oracles)"], exhaustive=True)
